@@ -79,12 +79,13 @@ def _cases(tier):
     ]
     # relaxation with a leakage level present (3-level operators): symmetric weak leak so that the recorded C24 mapping defect does not matter
     out.append({"name": "relaxation_with_leak_level", "basis": "rydberg", "noise": dict(relaxation_rate=3.0, with_leakage=True, eff_noise_opers=[e(2, 0, 3) + e(2, 1, 3)], eff_noise_rates=[0.2])})
+    # asymmetric leakage: exercises the recorded finding (C24 mapping defect seen through the trajectory average) in both tiers
+    out.append({"name": "leak_asymmetric", "basis": "rydberg", "noise": dict(with_leakage=True, eff_noise_opers=[e(2, 0, 3), e(2, 1, 3)], eff_noise_rates=[2.5, 0.3])})
     if tier == "thorough":
         out += [
             {"name": "depolarizing", "basis": "rydberg", "noise": dict(depolarizing_rate=1.5)},
             {"name": "xy_dephasing", "basis": "xy", "noise": dict(dephasing_rate=2.0)},
             {"name": "leak_symmetric", "basis": "rydberg", "noise": dict(with_leakage=True, eff_noise_opers=[e(2, 0, 3) + e(2, 1, 3)], eff_noise_rates=[1.5])},
-            {"name": "leak_asymmetric", "basis": "rydberg", "noise": dict(with_leakage=True, eff_noise_opers=[e(2, 0, 3), e(2, 1, 3)], eff_noise_rates=[2.5, 0.3])},
             {"name": "relaxation3", "basis": "rydberg", "noise": dict(relaxation_rate=2.0), "shape": "bent3"},
         ]
     for c in out:
